@@ -416,7 +416,9 @@ impl ParsedParameters {
         // Params explicitly set to the default value
         // let mut redundant = BTreeSet::<String>::new();
         // Params specified, but not used
-        let given = locals.clone();
+        // Given: by the step itself, or by the caller(s) of the macro it is part of
+        let mut given = parameters.caller_arguments();
+        given.extend(locals.clone());
         let ignored: Vec<String> = locals.into_keys().collect();
         Ok(ParsedParameters {
             name,
